@@ -11,6 +11,8 @@ mod instruments;
 
 mod incremental_averages;
 mod streams_manager;
+#[cfg(feature = "verif")]
+pub mod verif;
 
 // pub for criterion usage
 pub mod ogre_std;
